@@ -556,7 +556,7 @@ func prepareCall(fr *frame, call *ssa.CallCommon) (fn value, args []value) {
 	} else {
 		recv := v.(iface)
 		if recv.t == nil {
-			panic(targetPanic{iface{fr.i.runtimeErrorString, "runtime error: invalid memory address or nil pointer dereference (method call on nil interface)"}})
+			panic(targetPanic{iface{fr.i.runtimeErrorString, "runtime error: invalid memory address or nil pointer dereference (method " + call.Method.Name() + " called on nil interface in " + stackOf(fr, 4) + ")"}})
 		}
 		if f := lookupMethod(fr.i, recv.t, call.Method); f == nil {
 			panic(fmt.Sprintf("method set for dynamic type %v does not contain %s", recv.t, call.Method))
